@@ -70,7 +70,9 @@ def run(ctx):
             atoms = g.atoms_at(("t", z.bb))
             if not any(re.search(grow_rx, a) for a in atoms) and has_grow_test:
                 problems.append("the zero fill (line %d) is not controlled by the new > old comparison this function makes" % z.line)
-            extra = [a for a in atoms if not re.search(grow_rx, a) and not re.search(r"stream_len|Try::branch|is #0", a)]
+            # "the previous fallible step succeeded" (also for an inlined guard helper whose result is threaded to
+            # its `?`) is not a condition on the zero fill: on the other branch the function has already returned
+            extra = [a for a in atoms if not re.search(grow_rx, a) and not re.search(r"stream_len|Try::branch|is #0| is (Ok|not Err)$", a)]
             if extra:
                 problems.append("the zero fill (line %d) also depends on: %s" % (z.line, "; ".join(x[:80] for x in extra)))
         # every growing path passes the zero fill before the length store
